@@ -35,6 +35,9 @@ THEOREMS = ['GV.GeoJson.' + t for t in (
     'collection_export_shape', 'collection_roundtrip', 'collection_import_pure', 'track_roundtrip',
     # export histories
     'reexport_set_dt', 'reexport_strip_dt', 'reexport_set_property',
+    # ring orientation across the antimeridian (un-wrapped longitudes)
+    'exterior_ccw_holes_cw_antimeridian', 'constructor_leaves_shellOK_lon', 'isCCW_iff_winding',
+    'isCCW_iff_winding_and_area', 'shoelace_eq_neg_area2_unwrap', 'shoelace_reverse', 'isCCW_reverse_lon',
     # the runtime assumption is consistent
     'demoRt_lawful')]
 
@@ -411,16 +414,62 @@ def _wraps(ring):
     return any(abs(a[0] - b[0]) > 180 for a, b in zip(ring, ring[1:]))
 
 
+def _unwrap(ring):
+    """longitudes made continuous along the ring: every step is taken the short way round (a step of more than
+    180 degrees is a crossing of the antimeridian); exact"""
+    out, u, prev = [], None, None
+    for p in ring:
+        x = Fraction(p[0])
+        if u is None:
+            u = x
+        else:
+            d = x - prev
+            if d > 180:
+                d -= 360
+            elif d < -180:
+                d += 360
+            u += d
+        prev = x
+        out.append((u, Fraction(p[1])))
+    return out
+
+
+def _winding(ring):
+    """twice the signed area of the ring on the un-wrapped longitudes (positive = counter-clockwise as seen on
+    the map around the ring), or None when the un-wrapped ring does not close: it runs once around a pole and
+    'counter-clockwise' has no planar meaning"""
+    u = _unwrap(ring)
+    if not u or u[0][0] != u[-1][0]:
+        return None
+    return _area2(u)
+
+
 def _rings_ok(rings):
     for r in rings:
         if len(r) == 0 or list(r[0]) != list(r[-1]):
             return 'bad:ring-not-closed'
     if rings:
-        if not _wraps(rings[0]) and _area2(rings[0]) < 0:
+        w = _winding(rings[0])
+        if w is not None and w < 0:
             return 'bad:exterior-clockwise'
         for h in rings[1:]:
-            if not _wraps(h) and _area2(h) > 0:
+            w = _winding(h)
+            if w is not None and w > 0:
                 return 'bad:hole-counter-clockwise'
+    return 'ok'
+
+
+def geom_rings_verdict(geom):
+    """closure and RFC 7946 winding of every ring of a Polygon / MultiPolygon geometry member"""
+    if not isinstance(geom, dict):
+        return 'ok'
+    if geom.get('type') == 'Polygon':
+        return _rings_ok(geom['coordinates'])
+    if geom.get('type') == 'MultiPolygon':
+        for rings in geom['coordinates']:
+            v = _rings_ok(rings)
+            if v != 'ok':
+                return v
     return 'ok'
 
 
@@ -498,7 +547,9 @@ def rfc_verdict(shape, a, doc):
         ext = ps if want_type not in ('Polygon', 'MultiPolygon') else (
             [p for p in geom['coordinates'][0]] if want_type == 'Polygon'
             else [p for poly in geom['coordinates'] for p in poly[0]])
-        if ext and not any(_wraps(r) for r in ([ext] if want_type != 'MultiPolygon' else [])):
+        ext_rings = [ext] if want_type != 'MultiPolygon' else [poly[0] for poly in geom['coordinates'] if poly]
+        # (bounds of shapes that straddle the antimeridian are C09's subject: member order is not judged there)
+        if ext and not any(_wraps(r) for r in ext_rings):
             lo = (min(p[0] for p in ext), min(p[1] for p in ext), max(p[0] for p in ext), max(p[1] for p in ext))
             if vertex_defined:
                 if tuple(bb) != lo:
@@ -702,7 +753,13 @@ def op_crt(a):
     want = type(c)([polyform(s, a.get('k')) for s in c.geoshapes])
     eq = (back == want) and type(back) is type(c) and all(
         x.dt == y.dt for x, y in zip(back.geoshapes, c.geoshapes))
-    return f'ok {enc([shape_enc(x) for x in back.geoshapes])} eq={tf(eq)}'
+    rings = 'ok'
+    for f in doc['features']:
+        v = geom_rings_verdict(f.get('geometry'))
+        if v != 'ok':
+            rings = v
+            break
+    return f'ok {enc([shape_enc(x) for x in back.geoshapes])} eq={tf(eq)} rings={rings}'
 
 
 # ---- export histories: observe - update in place - observe again, on live objects -------------------------------
@@ -751,6 +808,9 @@ def _feature_verdict(shape, st, doc, idx=None):
     a = {'ov': st.get('ov'), 'extra': dict(st.get('extra') or {})}
     if idx is not None:
         a['extra'] = {'id': idx, **a['extra']}
+    v = geom_rings_verdict(doc.get('geometry'))
+    if v != 'ok':
+        return v
     return props_verdict(shape, a, doc)
 
 
@@ -828,7 +888,71 @@ def op_hist(a):
             ' docs=' + ('same' if same else 'changed'))
 
 
-OPS = {'export': op_export, 'rfc': op_rfc, 'import': op_import, 'twice': op_twice, 'setprop': op_setprop,
+# ---- import - mutate - import ------------------------------------------------------------------------------------
+
+
+def _scramble_result(r):
+    """the caller does what it likes with an imported object: everything reachable from it is edited"""
+    from geostructures.collections import CollectionBase
+    if isinstance(r, CollectionBase):
+        for m in list(r.geoshapes):
+            _scramble_result(m)
+        r.geoshapes.reverse()
+        r.geoshapes.clear()
+        return
+    _scramble(r._properties)
+    r.set_property('zz', [1])
+    r.set_dt(datetime(2001, 1, 1, tzinfo=timezone.utc))
+    for attr in ('outline', 'vertices', 'holes', 'geoshapes'):
+        v = getattr(r, attr, None)
+        if isinstance(v, list):
+            for e in list(v):
+                if hasattr(e, 'longitude'):
+                    e.longitude, e.latitude, e.z = e.longitude / 2 + 1.0, 0.0, 5
+                elif hasattr(e, '_properties'):
+                    _scramble_result(e)
+            v.reverse()
+            v.clear()
+    c = getattr(r, 'coordinate', None)
+    if c is not None:
+        c.longitude, c.latitude, c.z = 7.0, 7.0, 7
+
+
+def op_imphist(a):
+    """import, scramble the result, (dict input: give the SAME input object new content), import again"""
+    fn = importer(a['kind'])
+    names = time_names(a)
+    doc = a['doc']
+    orig = copy.deepcopy(doc)
+    text = a.get('via') == 'text'
+    arg = json.dumps(doc) if text else doc
+
+    def once():
+        before = None if text else enc(arg)
+        try:
+            r = fn(arg, *names)
+            out = enc(shape_enc(r))
+        except Exception as e:  # noqa
+            return None, _err(e)
+        if before is not None and enc(arg) != before:
+            out += ' doc=changed'
+        return r, out
+    r1, o1 = once()
+    if r1 is not None:
+        try:
+            _scramble_result(r1)
+        except Exception as e:  # noqa
+            raise common.InfraError(f'scramble failed: {e!r}')
+    if not text:
+        # whatever the scrambling did through shared nested values: the caller now states the document anew,
+        # in the same dict object
+        arg.clear()
+        arg.update(copy.deepcopy(a.get('doc2', orig)))
+    r2, o2 = once()
+    return f'ok {o1} ; {o2} same={tf(o1 == o2)}'
+
+
+OPS = {'imphist': op_imphist, 'export': op_export, 'rfc': op_rfc, 'import': op_import, 'twice': op_twice, 'setprop': op_setprop,
        'rt': op_rt, 'cexport': op_cexport, 'crt': op_crt, 'hist': op_hist}
 
 
@@ -857,10 +981,12 @@ def spec(line):
     if op == 'hist':
         return 'REQ rfc=ok docs=same'
     a = dec(rest)
+    if op == 'imphist':
+        return 'FORBID doc=changed' + ('' if 'doc2' in a else ';REQ same=T')
     if op == 'rt':
         return 'REQ eq=T dt=T props=T' if a.get('wf', True) else None
     if op == 'crt':
-        return 'REQ eq=T' if a.get('wf', True) else None
+        return 'REQ eq=T rings=ok' if a.get('wf', True) else 'IFOK rings=ok'
     if op == 'import':
         if a.get('expect'):
             return 'IS ' + a['expect']
@@ -914,10 +1040,28 @@ def spec_for(_line):
 # generators
 
 
+def wrap_pt(p):
+    """what Coordinate.__init__ would store: longitude folded into [-180, 180), latitude kept off the poles"""
+    lon = ((p[0] + 180.0) % 360.0) - 180.0
+    lat = max(-89.875, min(89.875, p[1]))
+    return [lon, lat] + list(p[2:])
+
+
 def g_lonlat(rng, near=None, spread=40):
+    """a grid point; fresh centres are drawn from three zones: mid-latitude mid-longitude, straddling the
+    antimeridian (so that shapes built around them have edges across +-180), and close to a pole"""
     if near is None:
-        return [rng.randrange(-150 * 8, 150 * 8) / 8, rng.randrange(-70 * 8, 70 * 8) / 8]
-    return [near[0] + rng.randrange(-spread, spread + 1) / 8, near[1] + rng.randrange(-spread, spread + 1) / 8]
+        r = rng.random()
+        if r < 0.25:
+            lon = rng.choice([-1, 1]) * (180 - rng.randrange(0, 4 * 8) / 8)
+        else:
+            lon = rng.randrange(-150 * 8, 150 * 8) / 8
+        if rng.random() < 0.12:
+            lat = rng.choice([-1, 1]) * rng.randrange(80 * 8, 88 * 8) / 8
+        else:
+            lat = rng.randrange(-70 * 8, 70 * 8) / 8
+        return wrap_pt([lon, lat])
+    return wrap_pt([near[0] + rng.randrange(-spread, spread + 1) / 8, near[1] + rng.randrange(-spread, spread + 1) / 8])
 
 
 def g_zmode(rng):
@@ -959,7 +1103,7 @@ def ring_area2(raw):
     r = [p[:2] for p in raw]
     if r[0] != r[-1]:
         r = r + [r[0]]
-    return _area2(r)
+    return _area2(_unwrap(r))
 
 
 def ring_is_closed(raw):
@@ -972,7 +1116,7 @@ def g_hole(rng, near, curved_ok=True, zmode='none'):
         return {'t': 'polygon', 'raw': g_ring(rng, zmode=zmode, near=near, spread=6)}
     if r < 0.85:
         c = g_lonlat(rng, near, 6)
-        return {'t': 'box', 'nw': [c[0] - 0.25, c[1] + 0.25], 'se': [c[0] + 0.5, c[1] - 0.125]}
+        return {'t': 'box', 'nw': wrap_pt([c[0] - 0.25, c[1] + 0.25]), 'se': wrap_pt([c[0] + 0.5, c[1] - 0.125])}
     return {'t': 'curved', 'py': ['circle', g_lonlat(rng, near, 6), rng.choice([500.0, 1234.5, 20000.0])]}
 
 
@@ -989,7 +1133,7 @@ def g_polylike(rng, kinds=('polygon', 'box', 'circle', 'ellipse', 'ring', 'wedge
         w, h = rng.randrange(1, 40) / 8, rng.randrange(1, 40) / 8
         nwz = g_z(rng, zmode)
         sez = g_z(rng, zmode)
-        g = {'t': 'box', 'nw': [c[0] - w, c[1] + h] + nwz, 'se': [c[0] + w, c[1] - h] + sez}
+        g = {'t': 'box', 'nw': wrap_pt([c[0] - w, c[1] + h]) + nwz, 'se': wrap_pt([c[0] + w, c[1] - h]) + sez}
     elif kind == 'circle':
         g = {'t': 'curved', 'py': ['circle', cz, rng.choice([50.0, 1000.0, 25000.5, 150000.0])]}
     elif kind == 'ellipse':
@@ -1614,6 +1758,38 @@ def check(run):
                                    'props': {'name': 'p', 'n': 1}}
                             g_dt(rng, src, dtm)
                             small.append(src)
+    # the same across the antimeridian and next to a pole: shells and holes with edges over +-180, both
+    # orientations, alone, as parts of a MultiGeoPolygon, as circle / wedge / box, and (below) in collections
+    am_tri = [[179.0, 0.0], [-177.0, 0.0], [179.0, 3.0]]
+    am_sq = [[178.0, 10.0], [-178.0, 10.0], [-178.0, 13.5], [178.0, 13.5]]
+    am_180 = [[170.0, -5.0], [-180.0, -5.0], [-175.0, 2.0], [-180.0, 6.0], [170.0, 6.0]]
+    polar = [[10.0, 85.0], [100.0, 86.0], [-170.0, 85.5], [-60.0, 88.0]]          # runs around the pole: no winding
+    polar_tri = [[10.0, 85.0], [40.0, 86.0], [25.0, 89.5]]
+    am_hole = [[179.5, 11.0], [-179.5, 11.0], [179.75, 12.0]]
+    am_small = []
+    for base in (am_tri, am_sq, am_180, polar, polar_tri):
+        for rev in (False, True):
+            for closed in (False, True):
+                for zs in (None, [0.0]):
+                    ring = [p + (zs or []) for p in (list(reversed(base)) if rev else list(base))]
+                    if closed:
+                        ring = ring + [list(ring[0])]
+                    for holes in ([], [am_hole], [list(reversed(am_hole))], [hole1, list(reversed(am_hole))]):
+                        src = {'g': {'t': 'polygon', 'raw': ring, 'holes': [{'t': 'polygon', 'raw': h} for h in holes]},
+                               'props': {'name': 'am'}}
+                        g_dt(rng, src, 'interval' if closed else 'none')
+                        am_small.append(src)
+                        if not zs and not closed:
+                            am_small.append(g_dt(rng, {'g': {'t': 'mpoly', 'ps': [
+                                {'t': 'polygon', 'raw': tri}, copy.deepcopy(src['g']),
+                                {'t': 'box', 'nw': [179.0, 2.0], 'se': [-179.5, 1.0], 'holes': [{'t': 'polygon', 'raw': h} for h in holes]}]},
+                                'props': {}}, 'none'))
+    for ctr in ([179.9, 10.0], [-180.0, -45.0], [-179.95, 0.0], [20.0, 88.0], [179.5, 87.0]):
+        for py in (['circle', ctr, 30000.0], ['ellipse', ctr, 40000.0, 15000.0, 30.0]):
+            am_small.append(g_dt(rng, fill({'g': {'t': 'curved', 'py': py, 'holes': [{'t': 'curved', 'py': ['circle', ctr, 5000.0]}]}, 'props': {}}, None), 'none'))
+        for amin, amax in ((0.0, 360.0), (40.0, 200.0), (250.0, 300.0)):
+            am_small.append(g_dt(rng, fill({'g': {'t': 'ring', 'py': ['ring', ctr, 10000.0, 40000.0, amin, amax]}, 'props': {}}, None), 'none'))
+    small = small + am_small
     lines_export, lines_rfc, lines_rt = [], [], []
     for i, src in enumerate(small):
         a = {'src': src, 'k': None}
@@ -1793,6 +1969,59 @@ def check(run):
     run.run_cases('collection-roundtrip', lines_crt, impl, spec, tag=tag_coll, spec_compare=spec_cmp)
     run.run_cases('collection-import', lines_ci, impl, spec, tag=tag_import, spec_compare=spec_cmp)
 
+    # ---- import - mutate - import: every entry point, dict and text input ------------------------------------------
+    nest = {'tags': ['a', ['b']], 'd': {'k': [1], 'e': {}}, 'n': 1}
+
+    def with_nest(doc):
+        if isinstance(doc.get('properties'), dict):
+            doc['properties'].update(copy.deepcopy(nest))
+        elif 'coordinates' not in doc and 'features' not in doc:
+            doc['properties'] = copy.deepcopy(nest)
+        for f in doc.get('features', []) if isinstance(doc.get('features'), list) else []:
+            if isinstance(f, dict):
+                with_nest(f)
+        return doc
+
+    def imphist_lines(doc, kind, doc2s):
+        out = []
+        entries = [(kind, None), ('parse', None), ('parse', 'text')]
+        if kind == 'fc':
+            entries.append(('track', None))
+        for k2, via in entries:
+            a = {'kind': k2, 'doc': doc}
+            if via:
+                a['via'] = via
+            out.append(line_of('imphist', a))
+            if not via:
+                for d2 in doc2s:
+                    out.append(line_of('imphist', {**a, 'doc2': d2}))
+        return out
+    lines_small = []
+    for kind, coords in geoms.items():
+        for pv in ({'a': 1}, {'datetime_start': t0, 'datetime_end': t1}, {'datetime_start': tn}):
+            doc = with_nest({'type': 'Feature', 'geometry': {'type': kind, 'coordinates': coords}, 'properties': dict(pv)})
+            other = with_nest({'type': 'Feature', 'geometry': {'type': kind, 'coordinates': coords},
+                               'properties': {'b': [2], 'datetime_start': t1}})
+            lines_small += imphist_lines(doc, kind, [other])
+    fcdoc = {'type': 'FeatureCollection', 'features': [
+        with_nest({'type': 'Feature', 'geometry': {'type': k2, 'coordinates': c2},
+                   'properties': {'datetime_start': t0, 'datetime_end': t1}}) for k2, c2 in geoms.items()]}
+    lines_small += imphist_lines(fcdoc, 'fc', [{'type': 'FeatureCollection', 'features': fcdoc['features'][:2]}])
+    run.run_cases('import-mutate-import-small', lines_small, impl, spec, tag=tag_import, spec_compare=spec_cmp)
+    lines_imi = []
+    for _ in range(run.scale(60, 1200)):
+        if rng.random() < 0.75:
+            kind = rng.choice(KIND_NAMES)
+            doc = with_nest(j_feature(rng, kind, wild=rng.random() < 0.2))
+            d2 = [with_nest(j_feature(rng, kind))] if rng.random() < 0.5 else []
+            lines_imi += imphist_lines(doc, kind, d2)
+        else:
+            feats = [with_nest(j_feature(rng)) for _ in range(rng.choice([0, 1, 2, 3]))]
+            doc = {'type': 'FeatureCollection', 'features': feats}
+            d2 = [{'type': 'FeatureCollection', 'features': [with_nest(j_feature(rng))]}] if rng.random() < 0.5 else []
+            lines_imi += imphist_lines(doc, 'fc', d2)
+    run.run_cases('import-mutate-import', lines_imi, impl, spec, tag=tag_import, spec_compare=spec_cmp)
+
     # ---- export histories: observe, update in place, observe again (live objects, copies, imports, collections) ----
     run.run_cases('history-small', small_histories(rng), impl, spec, tag=tag_hist, spec_compare=spec_cmp)
     run.run_cases('history', [g_history(rng) for _ in range(run.scale(120, 2500))], impl, spec, tag=tag_hist,
@@ -1809,7 +2038,10 @@ def check(run):
              'steps on live objects (export, set_dt / strip_dt / buffer_dt / set_property in place or inplace=False, copy / '
              'deepcopy / pickle, scribbling on an earlier returned document, importing an exported document and updating '
              'the imported shape, collection and Track export before and after a member update); every export is compared '
-             'with the model applied to the updated fields and judged against the live object. All cases are non-trivial; '
+             'with the model applied to the updated fields and judged against the live object. Import-mutate-import cases: '
+             'import (every entry point; dict, and text for parse_geojson), edit everything reachable from the result, give '
+             'the same input object new content (dict), import again: the second result must be what the document states. '
+             'All cases are non-trivial; '
              'distinct by line.',
         assumptions=[
             'datetime.isoformat / fromisoformat round-trip an aware instant (Rt.Lawful.parse_iso); str.upper maps the six '
@@ -1822,6 +2054,10 @@ def check(run):
             'draws (their geodesy is C03); orientation and closure of those rings are judged on the exact values of '
             'the emitted floats',
             'members of multi-shapes carry no dt/properties of their own (they are never exported)',
-            'ring orientation is not judged for rings with an antimeridian-crossing edge; generators keep |lon| <= 155',
+            'ring orientation is judged on the un-wrapped longitudes (every step the short way round), so rings across the '
+            'antimeridian are judged too (a quarter of the generated centres lie within 4 degrees of +-180, an eighth within 10 '
+            'degrees of a pole); a ring that runs around a pole has no planar winding and is not judged; the bbox member order '
+            'of shapes that straddle the antimeridian is C09\'s subject',
+            'input forms: dict for every importer, text for parse_geojson (bytes / file objects are not accepted by the code)',
         ],
         checker_cmd='cd lean && lake build GeoVerif.Props.C14 && lake env lean .lake/audit/C14.lean  (#print axioms)')
